@@ -37,6 +37,9 @@ pub struct PuppetSpec {
     /// PullSync only: number of script items sent in answer to one Pull (1, or 2 for a source
     /// that answers every request with a small batch)
     pub per_pull: usize,
+    /// a source that reacts to being told to stop (merge / combine members only): inside that
+    /// call, (0, j) the late sibling j greets, (1, j) the listenable sibling j emits its next item
+    pub on_stop: Option<(u8, usize)>,
 }
 
 #[derive(Debug)]
@@ -81,6 +84,8 @@ pub struct Puppet<T> {
     pub items: Vec<(Val, T)>,
     pub world: Arc<World>,
     pub subs: Mutex<Vec<Arc<Sub<T>>>>,
+    /// run (once per subscription) from inside the handler of a downstream Terminate / Error
+    pub stop_hook: Mutex<Option<Arc<dyn Fn() + Send + Sync>>>,
 }
 
 impl<T: Clone + Send + Sync + 'static> Puppet<T> {
@@ -99,6 +104,7 @@ impl<T: Clone + Send + Sync + 'static> Puppet<T> {
             items,
             world: Arc::clone(world),
             subs: Mutex::new(vec![]),
+            stop_hook: Mutex::new(None),
         })
     }
 
@@ -208,17 +214,53 @@ impl<T: Clone + Send + Sync + 'static> Puppet<T> {
             },
             Message::Terminate => {
                 let _f = self.world.enter(sub.edge, Dir::Up, Kind::Terminate, Val::none(), -1);
-                sub.st.lock().unwrap().stopped = true;
+                self.stopped(sub);
             },
             Message::Error(e) => {
                 let id = self.world.err_id(&e);
                 let _f = self.world.enter(sub.edge, Dir::Up, Kind::Error, Val::none(), id);
-                sub.st.lock().unwrap().stopped = true;
+                self.stopped(sub);
             },
             Message::Handshake(_) => {
                 let _f = self.world.enter(sub.edge, Dir::Up, Kind::Handshake, Val::none(), -1);
             },
             Message::Data(_) => {},
+        }
+    }
+
+    fn stopped(&self, sub: &Arc<Sub<T>>) {
+        let first = {
+            let mut st = sub.st.lock().unwrap();
+            let f = !st.stopped;
+            st.stopped = true;
+            f
+        };
+        if first {
+            let h = self.stop_hook.lock().unwrap().clone();
+            if let Some(h) = h {
+                h();
+            }
+        }
+    }
+
+    /// every subscription that has not been greeted yet greets now
+    pub fn greet_all(self: &Arc<Self>) {
+        let n = self.n_subs();
+        for k in 0..n {
+            if self.can_greet(k) {
+                self.greet(k);
+            }
+        }
+    }
+
+    /// every live subscription of a listenable puppet emits its next item
+    pub fn emit_all(self: &Arc<Self>) {
+        if self.spec.mode != Mode::Listen {
+            return;
+        }
+        let subs: Vec<Arc<Sub<T>>> = self.subs.lock().unwrap().clone();
+        for s in subs.iter() {
+            self.emit_next(s);
         }
     }
 
@@ -350,6 +392,11 @@ pub trait PuppetCtl: Send + Sync {
     fn err_id_of(&self, k: usize) -> i32;
     /// forget every sink handle (breaks the source <-> sink reference cycles at the end of a case)
     fn teardown(&self);
+    fn on_stop(&self) -> Option<(u8, usize)>;
+    fn clone_ctl(&self) -> Box<dyn PuppetCtl>;
+    fn set_stop_hook(&self, h: Arc<dyn Fn() + Send + Sync>);
+    fn greet_all(&self);
+    fn emit_all(&self);
 }
 
 impl<T: Clone + Send + Sync + 'static> PuppetCtl for Arc<Puppet<T>> {
@@ -397,5 +444,21 @@ impl<T: Clone + Send + Sync + 'static> PuppetCtl for Arc<Puppet<T>> {
     }
     fn teardown(&self) {
         self.subs.lock().unwrap().clear();
+        *self.stop_hook.lock().unwrap() = None;
+    }
+    fn on_stop(&self) -> Option<(u8, usize)> {
+        self.spec.on_stop
+    }
+    fn clone_ctl(&self) -> Box<dyn PuppetCtl> {
+        Box::new(Arc::clone(self))
+    }
+    fn set_stop_hook(&self, h: Arc<dyn Fn() + Send + Sync>) {
+        *self.stop_hook.lock().unwrap() = Some(h);
+    }
+    fn greet_all(&self) {
+        Puppet::greet_all(self)
+    }
+    fn emit_all(&self) {
+        Puppet::emit_all(self)
     }
 }
